@@ -128,6 +128,119 @@ def c02(run):
     run.extra["driver"] = info
 
 
+@check("C03")
+def c03(run):
+    run.rule = ("cases = the C01 program families; per term the derivative graph, and for the root and its first "
+                "derivatives: the class list, class_derivative on every valid and three invalid ids, set_derivative "
+                "on every pair of boundary points (end points of the classes and their neighbours, 0, 0x2FFFF), "
+                "str_derivative on sample words; TLC spawns one product root per (class, representative character "
+                "of the class), per accepted set (both end points) and per word: the returned term must denote the "
+                "left quotient for all continuation strings; non-trivial = distinct record with >= 2 classes")
+    run.assumptions = list(REGEX_ASSUME)
+    _u1_regex(run)
+    out, info = _drive(run, "c03")
+    nt = lambda r: r.get("op") == "dgraph3" and len(r["cls"][0]["ranges"]) >= 1
+    def setd(kind):
+        def f(r):
+            if r.get("op") != "dgraph3":
+                return False
+            for cl in r["cls"]:
+                rs = cl["ranges"]
+                for sd in cl["setd"]:
+                    inside = any(lo <= sd["a"] and sd["b"] <= hi for lo, hi in rs)
+                    disj = all(sd["b"] < lo or hi < sd["a"] for lo, hi in rs)
+                    k = "inside" if inside else ("complement" if disj else "straddling")
+                    if k == kind:
+                        return True
+            return False
+        return f
+    need = {"explored": lambda r: r.get("op") == "dgraph3", "set_inside": setd("inside"),
+            "set_in_complement": setd("complement"), "set_straddling": setd("straddling"),
+            "complement_class": lambda r: r.get("op") == "dgraph3" and -1 in r["cls"][0]["ids"],
+            "no_complement_class": lambda r: r.get("op") == "dgraph3" and -1 not in r["cls"][0]["ids"]}
+    run.validate("c03_products", os.path.join(out, "c03_products.ndjson"), "Trace_Product", "Trace_Product.cfg",
+                 ["C03:", "build/"], workers=workers(run), nontrivial=nt, need=need, timeout=1500)
+    run.extra["driver"] = info
+
+
+def _depth_ge1(r):
+    return r.get("ast", {}).get("k") not in ("none", "eps", "all", "allchar", "rng", "chr", "str")
+
+
+@check("C05")
+def c05(run):
+    run.rule = ("cases = the C01 program families plus the semantically-empty family under two alphabet layouts "
+                "(intersections of disjoint languages, complements of universal languages built the long way, "
+                "loops/concatenations over them); is_empty_re and get_string in both call orders; TLC decides "
+                "emptiness of the AST exactly by reachability closure in the residual automaton and checks the "
+                "witness against the AST; non-trivial = distinct record of depth >= 1")
+    run.assumptions = list(REGEX_ASSUME)
+    _u1_regex(run)
+    out, info = _drive(run, "c05")
+    need = {"empty_not_syntactic": lambda r: r.get("op") == "empty" and r["empty"] and not r["syn_empty"],
+            "nonempty_with_witness": lambda r: r.get("op") == "empty" and r["has_w"] and len(r["w"]) >= 2,
+            "exact": lambda r: r.get("exact") is True}
+    run.validate("c05_empty", os.path.join(out, "c05_empty.ndjson"), "Trace_Regex", "Trace_Regex.cfg",
+                 ["C05:", "is_empty_re/"], workers=workers(run), nontrivial=_depth_ge1, need=need, timeout=1500)
+    run.extra["driver"] = info
+
+
+@check("C18")
+def c18(run):
+    run.rule = ("cases = the C01/C05 program families; start_char on every region representative (end points of "
+                "the AST and of the term's derivative classes, their neighbours, 0, 0x2FFFF), start_class on every "
+                "valid class id and on invalid ones, in both call orders; oracle: exact non-emptiness of the left "
+                "quotient (reachability closure in the residual automaton); non-trivial = distinct record of depth >= 1")
+    run.assumptions = list(REGEX_ASSUME)
+    _u1_regex(run)
+    out, info = _drive(run, "c18")
+    need = {"inter_root": lambda r: r.get("rootop") in ("inter", "inter_list"),
+            "concat_root": lambda r: r.get("rootop") in ("concat", "concat_list"),
+            "some_true": lambda r: r.get("op") == "start" and any(r["res"]),
+            "some_false": lambda r: r.get("op") == "start" and not all(r["res"]),
+            "sem_empty": lambda r: r.get("fam") == "sem-empty"}
+    run.validate("c18_start", os.path.join(out, "c18_start.ndjson"), "Trace_Regex", "Trace_Regex.cfg",
+                 ["C18:", "start_char/"], workers=workers(run), nontrivial=_depth_ge1, need=need, timeout=1500)
+    # BadClassId for start_class is also exercised from the class records of the C03 driver
+    run.extra["driver"] = info
+
+
+@check("C19")
+def c19(run):
+    run.rule = ("cases = the C01 program families plus loops with counters up to 40; iter_derivatives listed twice "
+                "(addresses), char_derivative on every region representative of every listed term, try_compile at "
+                "bounds 0, L-1, L, L+1, usize::MAX, compile; non-trivial = distinct record with >= 3 derivatives")
+    run.assumptions = ["region argument as in C01", "terms with more than 1500 derivatives: counts and bounds only, "
+                       "closedness not examined; iteration cap 200000 = 'does not terminate'"]
+    out, info = _drive(run, "c19")
+    need = {"many": lambda r: r.get("len", 0) >= 40, "counters": lambda r: r.get("fam") == "counters",
+            "closure": lambda r: r.get("op") == "closure"}
+    run.validate("c19_closure", os.path.join(out, "c19_closure.ndjson"), "Trace_Regex", "Trace_Regex.cfg",
+                 ["C19:", "iter_derivatives/"], workers=workers(run), nontrivial=lambda r: r.get("len", 0) >= 3,
+                 need=need, timeout=1500)
+    run.extra["driver"] = info
+
+
+@check("C16")
+def c16(run):
+    run.rule = ("cases = ordered pairs: all pairs of 14 factors, random concatenations of <= 4 factors on each side "
+                "(with complement/union/intersection wrappers), widening pairs, sub-term pairs of random programs; "
+                "whenever included_in answers true TLC decides L(r) subset L(s) exactly (emptiness of r & ~s by "
+                "closure); false answers are not judged; non-trivial = distinct pair answered true with r != s, "
+                "r not none, s not all")
+    run.assumptions = list(REGEX_ASSUME)
+    _u1_regex(run)
+    out, info = _drive(run, "c16")
+    nt = lambda r: (r.get("op") == "incl" and r["res"] and not r["same"] and r["a"].get("k") != "none"
+                    and r["b"].get("k") != "all")
+    need = {"true_nonidentical": nt, "false": lambda r: r.get("op") == "incl" and not r["res"],
+            "complement_pair": lambda r: r.get("op") == "incl" and r["res"] and r["a"].get("k") == "not" and r["b"].get("k") == "not",
+            "union_rhs_true": lambda r: r.get("op") == "incl" and r["res"] and r["b"].get("k") == "alt"}
+    run.validate("c16_incl", os.path.join(out, "c16_incl.ndjson"), "Trace_Regex", "Trace_Regex.cfg",
+                 ["C16:", "included_in"], workers=workers(run), nontrivial=nt, need=need, timeout=1500)
+    run.extra["driver"] = info
+
+
 # ------------------------------------------------------------------------------------ housekeeping
 
 def sany():
